@@ -50,13 +50,26 @@ def module(cfile, openmp=False):
     return _MODULES[key]
 
 
+def _shares(a, b):
+    return np.shares_memory(a, b)
+
+
 class _Flat(object):
     """list-like view of a C-contiguous object ndarray holding S scalars, as DAG nodes"""
 
     def __init__(self, arr):
         if not arr.flags.c_contiguous:
-            raise ValueError("array passed through the FFI is not C-contiguous")
+            # a raw pointer sees the underlying memory: accept any axis permutation of a C-contiguous block (e.g. the F-ordered
+            # (ngrids, nao) arrays PySCF hands around) and expose that block in memory order
+            import numpy as _np
+            order = sorted(range(arr.ndim), key=lambda k: -arr.strides[k])
+            mem = arr.transpose(order)
+            if not mem.flags.c_contiguous:
+                raise ValueError("array passed through the FFI is not a permuted view of a contiguous block")
+            arr = mem
         self.flat = arr.reshape(-1)
+        if self.flat.size and not _shares(self.flat, arr):
+            raise ValueError("array passed through the FFI could not be viewed flat without a copy")
 
     def __len__(self):
         return self.flat.shape[0]
